@@ -15,7 +15,7 @@
                  `client_getRef`), `shutdown` is `clientShutdown` (`client_shutdown`, `run_shutSendCmd`,
                  `run_shutSendBuf`, `run_shutFinish`); `mget ks iter` (`multi_get` and the two iterators) is Layer A's
                  `.multiGet ks` (`run_mget`: induction over the keys against `readKeys`; `client_mget`;
-                 `client_mget_iter_irrelevant`); fuel `2·|ks| + 2`;
+                 `client_mget_iter_irrelevant`); fuel `4·|ks| + 3` (every load of the shutdown flag is an action);
                  `parked_is_send` / `parked_is_shutdown_send` / `parked_not_enabled` (Layer A's `.parked` = the Layer B
                  client at `.send cmd` / `.shutSendCmd` / `.shutSendBuf` with that queue full);
                  `resume_refines` (a parked call + `resume` = the Layer B client going on from that send);
@@ -840,8 +840,8 @@ theorem run_send (g : State) (w : WPc) (sw : SPc) (cl : List CPc) (res : List (L
 
 /-- Layer A's event for a Layer B request of client `c` (`get_ref` is one of the single-key reads: Layer A's `.get`;
     `multi_get` and the two multi-get iterators are all Layer A's `.multiGet`: with nobody else moving the shutdown
-    flag cannot change between two keys, so the only difference between them — what happens to the remaining keys once
-    the flag is set — never shows: `client_mget`) -/
+    flag cannot change between two of its loads, so the only difference between them — which loads there are and what
+    happens to the remaining keys once one of them finds the flag set — never shows: `client_mget`) -/
 def reqEv (c : Nat) : Req → Ev
   | .putW k v w none => .putW c k v w
   | .putW k v w (some t) => .putWTtl c k v w t
@@ -1171,13 +1171,14 @@ def MAgree (ra : Except String (State × List (Option Nat) × Oracle)) (rb : Exc
   | .error _ => ∃ m, rb = .error m
 
 /-- Layer B from "on to the next key" (`mgetNext`) to the end of the multi-key read, with nobody else moving and the
-    flag not set, against Layer A's `readKeys` (which gathers the results in reverse): at most two actions per key and
-    the final idle test. `iter` plays no role. -/
+    flag not set, against Layer A's `readKeys` (which gathers the results in reverse): at most four actions per key
+    (the iterators: the load of `next()`, the load inside `get`, `store.get`, `pool.add`; `multi_get`: three) and the
+    final idle test. Every load sees the flag clear, so `iter` plays no role for the outcome. -/
 theorem run_mget (w : WPc) (sw : SPc) (res : List (List Out)) (ss : List (Nat × Nat)) (i : Nat) (iter : Bool) :
     ∀ (ks : List Nat) (g : State) (cl : List CPc) (accA : List (Option Nat)) (o : Oracle) (n : Nat),
       i < cl.length → g.shutting = false →
       MAgree (readKeys g ks o accA)
-        (clientRun (n + 2 * ks.length + 1)
+        (clientRun (n + 4 * ks.length + 1)
           (mgetNext ⟨g, w, sw, cl, res, none, none, [], ss⟩ i ks accA.reverse iter) i o)
         (fun g1 vs => ⟨g1, w, sw, cl.set i .idle, res.set i (.values vs :: res.getD i []), none, none, [], ss⟩) := by
   intro ks
@@ -1187,73 +1188,150 @@ theorem run_mget (w : WPc) (sw : SPc) (res : List (List Out)) (ss : List (Nat ×
     simp [readKeys, MAgree, mgetNext, finishCall, clientRun, hi]
   | cons k ks ih =>
     intro g cl accA o n hi hs
-    have hfuel : n + 2 * (k :: ks).length + 1 = (n + 2 * ks.length + 2) + 1 := by
-      simp only [List.length_cons]; omega
-    have hnext : mgetNext ⟨g, w, sw, cl, res, none, none, [], ss⟩ i (k :: ks) accA.reverse iter =
-        ⟨g, w, sw, cl.set i (.mgetStore k ks accA.reverse iter), res, none, none, [], ss⟩ := by
-      simp [mgetNext, hs, setClient]
-    rw [hfuel, hnext]
-    rw [clientRun_act (pc := .mgetStore k ks accA.reverse iter) (hpc := by simp [hi]) (h1 := by simp) (h2 := by simp)]
-    simp only [readKeys, readKey]
-    have e1 : n + 2 * ks.length + 2 = (n + 1) + 2 * ks.length + 1 := by omega
-    cases hk : g.store.get? k with
-    | none =>
-      simp only [clientAct, hi, List.getElem?_set_self, hk]
-      have := ih { g with stats := { g.stats with misses := g.stats.misses + 1 } }
-        (cl.set i (.mgetStore k ks accA.reverse iter)) (none :: accA) o (n + 1) (by simp [hi]) hs
-      simp only [List.reverse_cons, List.set_set] at this
-      rw [e1]
-      exact this
-    | some e =>
-      by_cases ha : e.alive g.now = true
-      · simp only [clientAct, hi, List.getElem?_set_self, hk, ha, if_true, setClient, List.set_set]
-        have e2 : n + 2 * ks.length + 2 = (n + 2 * ks.length + 1) + 1 := by omega
-        rw [e2]
-        rw [clientRun_act (pc := .mgetPool k e.value ks accA.reverse iter) (hpc := by simp [hi]) (h1 := by simp)
-          (h2 := by simp)]
-        simp only [clientAct, hi, List.getElem?_set_self]
-        cases hp : poolAdd { g with stats := { g.stats with hits := g.stats.hits + 1 } } (g.cfg.hashOf k) o with
-        | error m => exact ⟨m, rfl⟩
-        | ok r =>
-          obtain ⟨g1, o1⟩ := r
-          have hs1 : g1.shutting = false := (poolAdd_shutting _ _ _ _ _ hp).trans hs
-          have := ih g1 (cl.set i (.mgetPool k e.value ks accA.reverse iter)) (some e.value :: accA) o1 n
-            (by simp [hi]) hs1
-          simp only [List.reverse_cons, List.set_set] at this
-          exact this
-      · simp only [clientAct, hi, List.getElem?_set_self, hk, ha, Bool.false_eq_true, if_false]
+    -- from the lookup of `k` on: `store.get`, on a hit `pool.add`, then the remaining keys
+    have S : ∀ m : Nat, MAgree (readKeys g (k :: ks) o accA)
+        (clientRun (m + 4 * ks.length + 3)
+          ⟨g, w, sw, cl.set i (.mgetStore k ks accA.reverse iter), res, none, none, [], ss⟩ i o)
+        (fun g1 vs => ⟨g1, w, sw, cl.set i .idle, res.set i (.values vs :: res.getD i []), none, none, [], ss⟩) := by
+      intro m
+      have hfuel : m + 4 * ks.length + 3 = (m + 4 * ks.length + 2) + 1 := by omega
+      rw [hfuel]
+      rw [clientRun_act (pc := .mgetStore k ks accA.reverse iter) (hpc := by simp [hi]) (h1 := by simp) (h2 := by simp)]
+      simp only [readKeys, readKey]
+      have e1 : m + 4 * ks.length + 2 = (m + 1) + 4 * ks.length + 1 := by omega
+      cases hk : g.store.get? k with
+      | none =>
+        simp only [clientAct, hi, List.getElem?_set_self, hk]
         have := ih { g with stats := { g.stats with misses := g.stats.misses + 1 } }
-          (cl.set i (.mgetStore k ks accA.reverse iter)) (none :: accA) o (n + 1) (by simp [hi]) hs
+          (cl.set i (.mgetStore k ks accA.reverse iter)) (none :: accA) o (m + 1) (by simp [hi]) hs
         simp only [List.reverse_cons, List.set_set] at this
         rw [e1]
         exact this
+      | some e =>
+        by_cases ha : e.alive g.now = true
+        · simp only [clientAct, hi, List.getElem?_set_self, hk, ha, if_true, setClient, List.set_set]
+          have e2 : m + 4 * ks.length + 2 = (m + 4 * ks.length + 1) + 1 := by omega
+          rw [e2]
+          rw [clientRun_act (pc := .mgetPool k e.value ks accA.reverse iter) (hpc := by simp [hi]) (h1 := by simp)
+            (h2 := by simp)]
+          simp only [clientAct, hi, List.getElem?_set_self]
+          cases hp : poolAdd { g with stats := { g.stats with hits := g.stats.hits + 1 } } (g.cfg.hashOf k) o with
+          | error m' => exact ⟨m', rfl⟩
+          | ok r =>
+            obtain ⟨g1, o1⟩ := r
+            have hs1 : g1.shutting = false := (poolAdd_shutting _ _ _ _ _ hp).trans hs
+            have := ih g1 (cl.set i (.mgetPool k e.value ks accA.reverse iter)) (some e.value :: accA) o1 m
+              (by simp [hi]) hs1
+            simp only [List.reverse_cons, List.set_set] at this
+            exact this
+        · simp only [clientAct, hi, List.getElem?_set_self, hk, ha, Bool.false_eq_true, if_false]
+          have := ih { g with stats := { g.stats with misses := g.stats.misses + 1 } }
+            (cl.set i (.mgetStore k ks accA.reverse iter)) (none :: accA) o (m + 1) (by simp [hi]) hs
+          simp only [List.reverse_cons, List.set_set] at this
+          rw [e1]
+          exact this
+    have hfuel : n + 4 * (k :: ks).length + 1 = (n + 4 * ks.length + 4) + 1 := by
+      simp only [List.length_cons]; omega
+    have hnext : mgetNext ⟨g, w, sw, cl, res, none, none, [], ss⟩ i (k :: ks) accA.reverse iter =
+        ⟨g, w, sw, cl.set i (.mgetFlag iter (k :: ks) accA.reverse iter), res, none, none, [], ss⟩ := by
+      simp [mgetNext, setClient]
+    rw [hfuel, hnext]
+    rw [clientRun_act (pc := .mgetFlag iter (k :: ks) accA.reverse iter) (hpc := by simp [hi]) (h1 := by simp) (h2 := by simp)]
+    cases iter with
+    | false =>
+      -- `multi_get`: the load inside `get`, then the lookup
+      simp only [clientAct, hi, List.getElem?_set_self, mgetFlagAct, hs, Bool.false_eq_true, if_false, setClient,
+        List.set_set]
+      have := S (n + 1)
+      have e3 : n + 1 + 4 * ks.length + 3 = n + 4 * ks.length + 4 := by omega
+      rw [e3] at this
+      exact this
+    | true =>
+      -- the iterators: the load of `next()`, the load inside `get`, then the lookup
+      simp only [clientAct, hi, List.getElem?_set_self, mgetFlagAct, hs, Bool.false_eq_true, if_false, if_true, setClient,
+        List.set_set]
+      have e4 : n + 4 * ks.length + 4 = (n + 4 * ks.length + 3) + 1 := by omega
+      rw [e4]
+      rw [clientRun_act (pc := .mgetFlag false (k :: ks) accA.reverse true) (hpc := by simp [hi]) (h1 := by simp)
+        (h2 := by simp)]
+      simp only [clientAct, hi, List.getElem?_set_self, mgetFlagAct, hs, Bool.false_eq_true, if_false, setClient,
+        List.set_set]
+      exact S n
 
 /-- `multi_get` (`iter = false`) and the multi-get iterators (`iter = true`): client `i` running
-    `start → (mgetStore → [mgetPool])*` alone is Layer A's single event `.multiGet ks` (`clientMultiGet`) — same shared
-    state, same list of values, same oracle; with the flag set both answer `.values []` and touch nothing.
-    `2·|ks| + 2` iterations suffice (the first action, at most two per key, the final idle test). -/
+    `start → mgetFlag* → (mgetFlag* → mgetStore → [mgetPool])*` alone is Layer A's single event `.multiGet ks`
+    (`clientMultiGet`) — same shared state, same list of values, same oracle; with the flag set both answer `.values []`
+    and touch nothing (run alone every load of the flag sees the same value: the `None`-without-lookup answers and the
+    truncated iterations of `C13_layerB_mget_around_shutdown` need another thread's `shutdown.cas` in between).
+    `4·|ks| + 3` iterations suffice (the first action; for the iterators two loads, the lookup and the access record per
+    key; for `multi_get` the load at its entry and one load, the lookup and the access record per key; the final idle test).
+    STATEMENT CHANGED with the model (every flag load its own action): the fuel was `2·|ks| + 2`. -/
 theorem client_mget (g : State) (w : WPc) (sw : SPc) (cl : List CPc) (res : List (List Out)) (ss : List (Nat × Nat))
     (i : Nat) (ks : List Nat) (iter : Bool) (o : Oracle) (n : Nat) (hi : i < cl.length) :
     CAgree ⟨g, w, sw, cl, res, none, none, [], ss⟩ i (step g (.multiGet ks) o)
-      (clientRun (n + 2 * ks.length + 2) ⟨g, w, sw, cl.set i (.start (.mget ks iter)), res, none, none, [], ss⟩ i o) := by
+      (clientRun (n + 4 * ks.length + 3) ⟨g, w, sw, cl.set i (.start (.mget ks iter)), res, none, none, [], ss⟩ i o) := by
   simp only [step, clientMultiGet]
+  have e : n + 4 * ks.length + 3 = (n + 4 * ks.length + 2) + 1 := rfl
+  rw [e, clientRun_act (pc := .start (.mget ks iter)) (hpc := by simp [hi]) (h1 := by simp) (h2 := by simp)]
   by_cases hs : g.shutting = true
-  · have e : n + 2 * ks.length + 2 = (n + 2 * ks.length) + 2 := rfl
-    rw [e]
-    simp [clientRun, clientAct, parkedAt, finishCall, hs, hi, List.set_set, CAgree, afterCall]
+  · -- flag set: the first action looks at nothing, the outer load ends the call (an iterator over no keys: at once)
+    cases ks with
+    | nil =>
+      cases iter <;>
+        simp [clientRun, clientAct, mgetStart, mgetFlagAct, parkedAt, finishCall, setClient, hs, hi, List.set_set, CAgree,
+          afterCall]
+    | cons k rest =>
+      cases iter <;>
+        simp [clientRun, clientAct, mgetStart, mgetFlagAct, parkedAt, finishCall, setClient, hs, hi, List.set_set, CAgree,
+          afterCall]
   · have hs' : g.shutting = false := by simpa using hs
-    rw [clientRun_act (pc := .start (.mget ks iter)) (hpc := by simp [hi]) (h1 := by simp) (h2 := by simp)]
-    simp only [clientAct, hi, List.getElem?_set_self, hs', Bool.false_eq_true, if_false]
-    have := run_mget w sw res ss i iter ks g (cl.set i (.start (.mget ks iter))) [] o n (by simp [hi]) hs'
-    simp only [List.reverse_nil, List.set_set] at this
-    unfold MAgree at this
-    cases hr : readKeys g ks o [] with
-    | error m => rw [hr] at this; exact this
-    | ok r =>
-      obtain ⟨g1, vs, o1⟩ := r
-      rw [hr] at this
-      simp only [CAgree, afterCall]
-      exact this
+    cases ks with
+    | nil =>
+      cases iter <;>
+        simp [clientRun, clientAct, mgetStart, mgetFlagAct, parkedAt, finishCall, setClient, hs', hi, List.set_set, CAgree,
+          afterCall, readKeys]
+    | cons k rest =>
+      have fin : ∀ (m : Nat) (rb : Except String (BState × Oracle)),
+          MAgree (readKeys g (k :: rest) o []) rb
+            (fun g1 vs => ⟨g1, w, sw, cl.set i .idle, res.set i (.values vs :: res.getD i []), none, none, [], ss⟩) →
+          CAgree ⟨g, w, sw, cl, res, none, none, [], ss⟩ i
+            (match readKeys g (k :: rest) o [] with
+              | .ok (s1, vs, o') => .ok (s1, .values vs, o')
+              | .error m => .error m) rb := by
+        intro m rb this
+        unfold MAgree at this
+        cases hr : readKeys g (k :: rest) o [] with
+        | error m => rw [hr] at this; exact this
+        | ok r =>
+          obtain ⟨g1, vs, o1⟩ := r
+          rw [hr] at this
+          simp only [CAgree, afterCall]
+          exact this
+      simp only [hs', Bool.false_eq_true, if_false]
+      cases iter with
+      | true =>
+        -- `start` leaves the client before the load of `next()`: that is `mgetNext` of all keys
+        simp only [clientAct, hi, List.getElem?_set_self, hs', Bool.false_eq_true, if_false, mgetStart, Bool.true_and,
+          List.isEmpty_cons, setClient, List.set_set]
+        have := run_mget w sw res ss i true (k :: rest) g (cl.set i (.start (.mget (k :: rest) true))) [] o (n + 1)
+          (by simp [hi]) hs'
+        simp only [List.reverse_nil, List.set_set, mgetNext, setClient] at this
+        have e5 : n + 1 + 4 * (k :: rest).length + 1 = n + 4 * (k :: rest).length + 2 := by omega
+        rw [e5] at this
+        exact fin 0 _ this
+      | false =>
+        -- `start`, then the load at the entry of `multi_get`: that leaves `mgetNext` of all keys
+        simp only [clientAct, hi, List.getElem?_set_self, hs', Bool.false_eq_true, if_false, mgetStart, Bool.false_and,
+          setClient, List.set_set]
+        have e6 : n + 4 * (k :: rest).length + 2 = (n + 4 * (k :: rest).length + 1) + 1 := by omega
+        rw [e6]
+        rw [clientRun_act (pc := .mgetFlag true (k :: rest) [] false) (hpc := by simp [hi]) (h1 := by simp) (h2 := by simp)]
+        simp only [clientAct, hi, List.getElem?_set_self, mgetFlagAct, hs', Bool.false_eq_true, if_false, if_true, setClient,
+          List.set_set]
+        have := run_mget w sw res ss i false (k :: rest) g (cl.set i (.start (.mget (k :: rest) false))) [] o n
+          (by simp [hi]) hs'
+        simp only [List.reverse_nil, List.set_set, mgetNext, setClient] at this
+        exact fin 0 _ this
 
 /-! ### `shutdown` -/
 
@@ -1337,7 +1415,7 @@ theorem client_shutdown (g : State) (w : WPc) (sw : SPc) (cl : List CPc) (res : 
 /-- explicit sufficient fuel for one client call (iterations of `clientRun`) -/
 def reqFuel : Req → Nat
   | .shutdown => 13
-  | .mget ks _ => 2 * ks.length + 2
+  | .mget ks _ => 4 * ks.length + 3
   | _ => 8
 
 /-- the number of keys of a multi-key read (0 for every other request) -/
@@ -1382,25 +1460,27 @@ theorem client_refines (b : BState) (i : Nat) (r : Req) (o : Oracle) (fuel : Nat
     obtain ⟨n, rfl⟩ : ∃ n, fuel = n + 8 := ⟨fuel - 8, by simp only [reqFuel] at hf; omega⟩
     exact client_getRef g w sw cl res ss i k o (n + 4) hi
   | mget ks iter =>
-    obtain ⟨n, rfl⟩ : ∃ n, fuel = n + 2 * ks.length + 2 := ⟨fuel - (2 * ks.length + 2), by simp only [reqFuel] at hf; omega⟩
+    obtain ⟨n, rfl⟩ : ∃ n, fuel = n + 4 * ks.length + 3 := ⟨fuel - (4 * ks.length + 3), by simp only [reqFuel] at hf; omega⟩
     exact client_mget g w sw cl res ss i ks iter o n hi
 
-/-- the fuel bound: 14 for every request of bounded length; a multi-key read needs two more per key.
-    (Was `reqFuel r ≤ 14` before `Req` had `mget`; for every other request `r.nkeys = 0` and this IS that statement.) -/
-theorem reqFuel_le (r : Req) : reqFuel r ≤ 14 + 2 * r.nkeys := by cases r <;> simp [reqFuel, Req.nkeys]; omega
+/-- the fuel bound: 14 for every request of bounded length; a multi-key read needs four more per key.
+    (Was `reqFuel r ≤ 14` before `Req` had `mget`; for every other request `r.nkeys = 0` and this IS that statement.
+    STATEMENT CHANGED with the model — every flag load of a multi-key read its own action: was `14 + 2 * r.nkeys`.) -/
+theorem reqFuel_le (r : Req) : reqFuel r ≤ 14 + 4 * r.nkeys := by cases r <;> simp [reqFuel, Req.nkeys]; omega
 
 /-- `client_refines` with one fuel bound for every request (for every request other than `mget`: `14 ≤ fuel`) -/
 theorem client_refines_14 (b : BState) (i : Nat) (r : Req) (o : Oracle) (fuel : Nat) (hi : i < b.cl.length)
-    (hwu : b.wuOwner = none) (httl : b.ttlOwner = none) (hsr : b.storeReaders = []) (hf : 14 + 2 * r.nkeys ≤ fuel) :
+    (hwu : b.wuOwner = none) (httl : b.ttlOwner = none) (hsr : b.storeReaders = []) (hf : 14 + 4 * r.nkeys ≤ fuel) :
     CAgree b i (step b.g (reqEv i r) o) (clientRun fuel (setClient b i (.start r)) i o) :=
   client_refines b i r o fuel hi hwu httl hsr (Nat.le_trans (reqFuel_le r) hf)
 
 /-- **The three multi-key reads are one Layer A event.** Run alone, `multi_get(ks)` and the multi-get iterators over
     `ks` end in the same Layer B state with the same recorded result: the shutdown flag — the only thing they treat
     differently — cannot change while nobody else moves. (Under interleaving they DO differ:
-    `C13_layerB_mget_after_flag`.) -/
+    `C13_layerB_mget_flag_outer`, `C13_layerB_mget_around_shutdown`.) Fuel: `4·|ks| + 3` (was `2·|ks| + 2` before every
+    flag load became an action of its own). -/
 theorem client_mget_iter_irrelevant (b : BState) (i : Nat) (ks : List Nat) (o : Oracle) (fuel : Nat) (hi : i < b.cl.length)
-    (hwu : b.wuOwner = none) (httl : b.ttlOwner = none) (hsr : b.storeReaders = []) (hf : 2 * ks.length + 2 ≤ fuel) :
+    (hwu : b.wuOwner = none) (httl : b.ttlOwner = none) (hsr : b.storeReaders = []) (hf : 4 * ks.length + 3 ≤ fuel) :
     (∃ m m', clientRun fuel (setClient b i (.start (.mget ks false))) i o = .error m ∧
              clientRun fuel (setClient b i (.start (.mget ks true))) i o = .error m') ∨
     (∃ r, clientRun fuel (setClient b i (.start (.mget ks false))) i o = .ok r ∧
@@ -2505,25 +2585,31 @@ example :
   decide
 
 /-- A multi-key read of a stored key, an absent key and another stored key (`multi_get` and the iterator): Layer B
-    alone = Layer A's `.multiGet` — same state, `[Some(2), None, Some(3)]`, two pool indices consumed; 8 iterations
-    (`2·3 + 2`) suffice, 5 do not (the run is `start, 102: store+pool, 7: store, 103: store+pool`, then the idle test). -/
+    alone = Layer A's `.multiGet` — same state, `[Some(2), None, Some(3)]`, two pool indices consumed; 15 iterations
+    (`4·3 + 3`) suffice for both; `multi_get` needs 11 (the run is `start, load; 102: load+store+pool, 7: load+store,
+    103: load+store+pool`, then the idle test: 10 do not suffice), the iterator 13 (one more load per key). -/
 example :
-    (match clientRun 8 (setClient exB2 0 (.start (.mget [102, 7, 103] false))) 0 { pool := [0, 0] },
+    (match clientRun 15 (setClient exB2 0 (.start (.mget [102, 7, 103] false))) 0 { pool := [0, 0] },
            step exG (.multiGet [102, 7, 103]) { pool := [0, 0] } with
       | .ok (b', o1), .ok (g', .values vs, o2) =>
         some (gview b'.g == gview g', b'.g.pool, vs, b'.res[0]?.map (·.length), o1.isEmpty && o2.isEmpty)
       | _, _ => none) = some (true, [[102, 103]], [some 2, none, some 3], some 1, true) ∧
-    (match clientRun 8 (setClient exB2 0 (.start (.mget [102, 7, 103] true))) 0 { pool := [0, 0] },
-           clientRun 8 (setClient exB2 0 (.start (.mget [102, 7, 103] false))) 0 { pool := [0, 0] } with
+    (match clientRun 15 (setClient exB2 0 (.start (.mget [102, 7, 103] true))) 0 { pool := [0, 0] },
+           clientRun 15 (setClient exB2 0 (.start (.mget [102, 7, 103] false))) 0 { pool := [0, 0] } with
       | .ok (b1, _), .ok (b2, _) => gview b1.g == gview b2.g &&
           (match b1.res[0]?, b2.res[0]? with
            | some [Out.values v1], some [Out.values v2] => v1 == v2
            | _, _ => false)
       | _, _ => false) = true ∧
-    (match clientRun 5 (setClient exB2 0 (.start (.mget [102, 7, 103] false))) 0 { pool := [0, 0] } with
+    (match clientRun 10 (setClient exB2 0 (.start (.mget [102, 7, 103] false))) 0 { pool := [0, 0] } with
       | .error m => m == "fuel exhausted"
       | _ => false) = true ∧
-    reqFuel (.mget [102, 7, 103] false) = 8 := by
+    (match clientRun 11 (setClient exB2 0 (.start (.mget [102, 7, 103] false))) 0 { pool := [0, 0] },
+           clientRun 12 (setClient exB2 0 (.start (.mget [102, 7, 103] true))) 0 { pool := [0, 0] },
+           clientRun 13 (setClient exB2 0 (.start (.mget [102, 7, 103] true))) 0 { pool := [0, 0] } with
+      | .ok _, .error m, .ok _ => m == "fuel exhausted"
+      | _, _, _ => false) = true ∧
+    reqFuel (.mget [102, 7, 103] false) = 15 := by
   decide
 
 /-- the hypotheses of `sweeper_refines` hold of the example state and the visiting order `[3, 1, 2]` -/
